@@ -190,7 +190,24 @@ def derived(check, tier, seed):
     s.done()
 
 
+
+def long_inputs(check, tier):
+    from bounded.common import long_values
+    s = Suite(check, "C11.long", "values with thousands of runs / characters wrapped at 2, 3 and 80 columns: the statement's oracle", bound="<= 6000 characters")
+    for label, v in long_values():
+        for cols in (2, 3, 80):
+            s.case((label, cols), sample=label)
+            try:
+                lines = list(v.width_aware_splitlines(cols))
+                d = judge(v, cols, lines)
+            except Exception as e:      # noqa: BLE001
+                d = f"raised {type(e).__name__}: {e}"
+            if d:
+                s.fail("C11.width_aware_splitlines.long", dict(value=label, cols=cols), d[:300])
+    s.done()
+
 def run(check, tier, seed):
+    long_inputs(check, tier)
     import contracts.splitter as SP
     from pyvc.verify import verify
     for c in SP.GENERATOR_CONTRACTS:
